@@ -52,6 +52,11 @@ var (
 	// IdentityCodePattern is the regular expression pattern used to validate tax identity codes.
 	IdentityCodePattern = `^[A-Z0-9]+$`
 
+	// IdentityCodeSchemaPattern is the pattern published in the JSON Schema. It is the
+	// regular pattern extended with the characters that the countries listed in
+	// IdentityCodeValidationIgnore accept: Mexican RFCs may contain "Ñ" and "&".
+	IdentityCodeSchemaPattern = `^[A-Z0-9Ñ&]+$`
+
 	// IdentityCodePatternRegexp is the regular expression used to validate tax identity codes.
 	IdentityCodePatternRegexp = regexp.MustCompile(IdentityCodePattern)
 
@@ -184,7 +189,13 @@ func (v validateTaxID) Validate(value interface{}) error {
 // JSONSchemaExtend adds extra details to the schema.
 func (Identity) JSONSchemaExtend(js *jsonschema.Schema) {
 	if cp, ok := js.Properties.Get("code"); ok {
-		cp.Pattern = IdentityCodePattern
+		// Not every country's code is a regular cbc.Code (see
+		// IdentityCodeValidationIgnore), so the property cannot refer to it.
+		cp.Ref = ""
+		cp.Type = "string"
+		cp.MinLength = &cbc.CodeMinLength
+		cp.MaxLength = &cbc.CodeMaxLength
+		cp.Pattern = IdentityCodeSchemaPattern
 	}
 	js.Extras = map[string]any{
 		schema.Recommended: []string{
